@@ -4,6 +4,7 @@
   pool invariant.
 -/
 import MultiProofs.OwnPool
+import MultiProofs.OwnReext
 
 namespace Multi
 namespace Own
@@ -31,6 +32,7 @@ inductive VOp (α : Type) where
   | reextSame (k : Nat) (es : List Ext) (fill : Option α)  -- `A.reextent(x [, v])` with x the current extensions
   | destroy (k : Nat)                                 -- end of lifetime
   | write (k : Nat) (idx : List Int) (v : α)          -- `A[i][j]… = v`
+  | reext (k : Nat) (es : List Ext) (fill : Option α) -- `A.reextent(x)` (`fill = none`) / `A.reextent(x, v)` (`fill = some v`)
 
 /-- the model's step -/
 def step (cfg : Cfg α) (p : Pool α) : VOp α → Pool α
@@ -90,6 +92,10 @@ def step (cfg : Cfg α) (p : Pool α) : VOp α → Pool α
     match p.arrs k with
     | some a => (p.withHeap (writeAt p.heap a idx v)).set k (some a)
     | none => p
+  | .reext k es fill =>
+    match p.arrs k with
+    | some a => let r := reextent cfg p.heap a es fill; (p.withHeap r.1).set k (some r.2)
+    | none => p
 
 /-- the documented effect on values -/
 def specStep (cfg : Cfg α) (ap : Nat → Option (AbsArr α)) : VOp α → (Nat → Option (AbsArr α))
@@ -110,6 +116,7 @@ def specStep (cfg : Cfg α) (ap : Nat → Option (AbsArr α)) : VOp α → (Nat 
   | .reextSame _ _ _ => ap
   | .destroy k => upd ap k none
   | .write k idx v => upd ap k ((ap k).map fun x => ⟨x.exts, x.elems.set (rowMajor x.exts idx).toNat (some v)⟩)
+  | .reext k es fill => upd ap k ((ap k).map fun x => if Exts.eqv es x.exts = true then x else reextVal cfg x es fill)
 
 /-- the domain of each operation: slots live / free as the operation needs, extensions well formed, reshape to the same count -/
 def VOp.InDom (p : Pool α) : VOp α → Prop
@@ -129,6 +136,7 @@ def VOp.InDom (p : Pool α) : VOp α → Prop
   | .reextSame k es _ => ∃ a, p.arrs k = some a ∧ Exts.eqv es a.exts = true
   | .destroy k => ∃ a, p.arrs k = some a
   | .write k idx _ => ∃ a, p.arrs k = some a ∧ InBox a.exts idx
+  | .reext k es _ => ∃ a, p.arrs k = some a ∧ ExtsOK es ∧ es.length = a.dim ∧ a.dim ≠ 0
 
 theorem absPool_some {p : Pool α} {k : Nat} {a : Arr} (h : p.arrs k = some a) : absPool p k = some (absArr p.heap a) := by
   simp [absPool, h]
@@ -400,6 +408,21 @@ theorem step_refines (cfg : Cfg α) (p : Pool α) (hi : Inv p) (op : VOp α) (hd
     have := hi.replace k (writeAt_outcome (hi.valid k a ha) hidx v) (ownOf ha)
     simp only [step, ha, specStep, absPool_some ha, Option.map_some]
     exact this
+  | reext k es fill =>
+    obtain ⟨a, ha, hes, hlen, hD⟩ := hd
+    by_cases hx : Exts.eqv es a.exts = true
+    · simp only [step, ha, specStep, reextent_same cfg p.heap a es fill hx, absPool_some ha, Option.map_some]
+      rw [Pool.set_same p ha]
+      have : (absArr p.heap a).exts = a.exts := rfl
+      simp only [this, hx, if_true]
+      refine ⟨hi, ?_⟩
+      rw [← absPool_some ha, upd_self]
+    · have hx' : Exts.eqv es a.exts = false := by simpa using hx
+      have := hi.replace k (reextent_outcome cfg (hi.valid k a ha) hes hlen hD fill hx') (ownOf ha)
+      simp only [step, ha, specStep, absPool_some ha, Option.map_some]
+      have he : (absArr p.heap a).exts = a.exts := rfl
+      simp only [he, hx', Bool.false_eq_true, if_false]
+      exact this
 
 /-! ### histories -/
 
